@@ -137,6 +137,10 @@ func (*c03) Gen(rng *RNG, tier string) []Case {
 		u := newMemUniverse(rng, i%3 == 2)
 		// well-formed names only: the property quantifies over those
 		u.repos = []string{"a", "b/c", "blobs/uploads", "x/manifests/y", "tags/list", "referrers", "a"}
+		if i%2 == 1 {
+			// names with routing words in every position (leading, middle, trailing, as a prefix of an element)
+			u.repos = []string{"a/blobs/b", "org/blobstore/img", "a/blobs/uploads/x", "team/blobs", "uploads/manifests", "v2/tags", "a/blobs/b"}
+		}
 		if i%3 == 2 {
 			for j := 0; j < 4; j++ {
 				u.repos = append(u.repos, genRepo(rng))
